@@ -2119,3 +2119,16 @@ PROPS["C13"]["lean_targets"] = PROPS["C13"]["lean_targets"][:-1] + ["SJ.Props.Ty
 PROPS["C13"]["level_text"] += (" c13_typed_fault_bounded (Props/TypedFaultBound.lean): under a failing reader the typed deserializer returns Io, or "
     "exactly the clean-end outcome, which is a Syntax-classified parser error whose index counts at most the delivered bytes or a visitor "
     "error that is unpositioned or positioned within them (c13_typed_fault_eq + typed_within_input).")
+
+# ---- C09 typed targets: NumberOutOfRange is shifted by the reader at ONE site only, do_deserialize_i128/u128 (closes the honesty-pass item)
+PROPS["C09"]["lean_targets"] = PROPS["C09"]["lean_targets"][:-1] + ["SJ.Props.TypedSrcFloat"] + PROPS["C09"]["lean_targets"][-1:]
+PROPS["C09"]["partial"] = [x for x in PROPS["C09"]["partial"] if not x.startswith("PeekCode contains NumberOutOfRange for every target")]
+PROPS["C09"]["level_text"] += (" Out-of-range numbers, typed targets (Props/TypedSrcFloat.lean over Proofs/TypedSimNoor.lean, the two-run simulation with "
+    "NumberOutOfRange removed from the peek-slot codes): c09_typed_out_of_range_float_same - on every schema without an i128 / u128 target "
+    "(f64, f32, integers up to 64 bits, Value, and all containers of these, integer map keys included) the slice run ends in NumberOutOfRange "
+    "at index i exactly when the reader run does (float conversion sites f64_from_parts / parse_exponent_overflow after 9343bad, and the "
+    "64-bit integer sites: peek_error or after eat_char); c09_typed_slice_reader_no128 - there the exceptions of c09_typed_slice_reader are "
+    "ExpectedNumericKey, ExpectedSomeValue and visitor errors only; c09_typed_out_of_range_shift_needs_128 - a NumberOutOfRange with two "
+    "different indices needs a 128-bit target (the one site is do_deserialize_i128/u128, self.error after buf.parse() failed with the byte "
+    "that ended scan_integer128's digits peeked), reader = slice + 1, slice index < len; kernel-checked witnesses on both sides (1e999 as "
+    "f64 / Vec<f64> / u64: equal; 2^128 followed by a byte as u128: slice 39, reader 40; c09_typed_out_of_range_128_shift).")
